@@ -1268,13 +1268,17 @@ func (e *Exec) applyKeeps(cc *callCtx, ctr *FuncContract, pre *State) {
 // recordFailStop: `failstop Callee, ...` of the root contract — remember the error result of the call; the obligations are
 // generated at loop back edges, early loop exits and at the function's exit (failStopAtEdge / failStopAtExit).
 func (e *Exec) recordFailStop(cc *callCtx, v Val) {
-	if cc.f != e.rootFrame || e.rootCtr == nil || len(e.rootCtr.FailStop) == 0 || e.discovery > 0 {
+	if cc.f != e.rootFrame || e.rootCtr == nil || (len(e.rootCtr.FailStop) == 0 && len(e.rootCtr.RecordFail) == 0) || e.discovery > 0 {
 		return
 	}
 	for _, n := range cc.names {
 		props, ok := e.rootCtr.FailStop[n]
+		var rec *RecordFailSpec
 		if !ok {
-			continue
+			if rec = e.rootCtr.RecordFail[n]; rec == nil {
+				continue
+			}
+			props = rec.Props
 		}
 		vals := v.Tup
 		if len(vals) == 0 {
@@ -1285,7 +1289,7 @@ func (e *Exec) recordFailStop(cc *callCtx, v Val) {
 			panic(fmt.Sprintf("fatal: contract of %s: failstop %s: its last result is not an error", e.rootCtr.Name, n))
 		}
 		e.failSeq++
-		e.pendingFail = append(e.pendingFail, pendingFail{site: fmt.Sprintf("%s.%d", n, e.failSeq), props: props, err: last.Term, reach: cc.reach, block: cc.b})
+		e.pendingFail = append(e.pendingFail, pendingFail{record: rec, site: fmt.Sprintf("%s.%d", n, e.failSeq), props: props, err: last.Term, reach: cc.reach, block: cc.b})
 		return
 	}
 }
@@ -1296,7 +1300,7 @@ func (e *Exec) failStopAtEdge(f *Frame, li *loopInfo, cond Term, what string) {
 		return
 	}
 	for _, p := range e.pendingFail {
-		if !li.blocks[p.block] {
+		if !li.blocks[p.block] || p.record != nil {
 			continue
 		}
 		e.oblige("failstop", p.site+"."+what, p.props, And(cond, p.reach), Eq(p.err, "nil_any"),
@@ -1310,7 +1314,48 @@ func (e *Exec) failStopAtExit(reach Term, retErr Term) {
 		return
 	}
 	for _, p := range e.pendingFail {
+		if p.record != nil {
+			continue
+		}
 		e.oblige("failstop", p.site+".return", p.props, And(reach, p.reach, Not(Eq(p.err, "nil_any"))), Not(Eq(retErr, "nil_any")),
 			fmt.Sprintf("a failed call of %s must make the function return a non-nil error", p.site), "failstop "+p.site)
+	}
+}
+
+// recordFailAtBackEdge: `recordfail F unless P… : errs` — a call of F that failed with a non-benign error in this iteration must
+// have made the accumulator slice grow before the loop goes on to the next element (so that the failure ends up in the
+// aggregate error the function returns, while the other elements are still processed).
+func (e *Exec) recordFailAtBackEdge(f *Frame, li *loopInfo, latch *ssa.BasicBlock, cond Term) {
+	if f != e.rootFrame || e.discovery > 0 {
+		return
+	}
+	for _, p := range e.pendingFail {
+		if p.record == nil || !li.blocks[p.block] {
+			continue
+		}
+		var phi *ssa.Phi
+		for _, ins := range li.header.Instrs {
+			ph, ok := ins.(*ssa.Phi)
+			if !ok {
+				break
+			}
+			if ph.Comment == p.record.Accum {
+				phi = ph
+			}
+		}
+		if phi == nil {
+			e.oblige("recordfail", p.site, p.props, cond, "false", "accumulator "+p.record.Accum+" is not carried by loop "+fmt.Sprint(li.ordinal), "recordfail "+p.site)
+			continue
+		}
+		oldV := f.vals[phi]
+		newV := e.val(f, phi.Edges[predIndex(li.header, latch)])
+		var benign []Term
+		for _, b := range p.record.Benign {
+			benign = append(benign, e.errPred(b, p.err))
+		}
+		failed := And(cond, p.reach, Not(Eq(p.err, "nil_any")), Not(Or(benign...)))
+		e.oblige("recordfail", p.site, p.props, failed, app(">", app("s_len", newV.Term), app("s_len", oldV.Term)),
+			fmt.Sprintf("a call of %s failed with an error that is not one of the tolerated ones (%s) and was not recorded in %s before the next element", p.site, strings.Join(p.record.Benign, ", "), p.record.Accum),
+			"recordfail "+p.site)
 	}
 }
